@@ -25,3 +25,18 @@ package codegen
 //@   traverse mark kind ir.ConstantHandle markedConstant($)
 //@   traverse mark kind ir.GlobalVariableHandle markedGlobal($)
 //@   except ExprAtomicResult.Ty ExprSubgroupOperationResult.Type
+//
+// ---- reserved-word data (C16): GLSL 4.50 keywords and reserved words (section 3.6).
+//
+//@ table C16 glslKeywords
+//@   contains attribute const uniform varying buffer shared coherent volatile restrict readonly writeonly atomic_uint
+//@   contains layout centroid flat smooth noperspective patch sample break continue do for while
+//@   contains switch case default if else subroutine in out inout float double int
+//@   contains void bool true false invariant precise discard return mat2 mat3 mat4 vec2
+//@   contains vec3 vec4 ivec2 ivec3 ivec4 bvec2 bvec3 bvec4 uvec2 uvec3 uvec4 dvec2
+//@   contains dvec3 dvec4 uint lowp mediump highp precision sampler2D sampler3D samplerCube struct common
+//@   contains partition active asm class union enum typedef template this resource goto inline
+//@   contains noinline public static extern external interface long short half fixed unsigned superp
+//@   contains input output hvec2 hvec3 hvec4 fvec2 fvec3 fvec4 filter sizeof cast namespace
+//@   contains using main
+//@   none-suffix _
